@@ -9,16 +9,63 @@ TRUST = ("Trusted: go/packages+go/types+go/ssa (x/tools v0.50.0) translate the s
          "an unsat answer of z3 5.1.0 / z3 4.8.12 / cvc5 1.0.3 is right; only linux/amd64 is verified; ")
 
 claims = {
- "C09": dict(
-   level="proof",
-   text=("Contracts on the real code (SSA built from /repo on every run) for container.convertReply and the syscall.WaitStatus "
-         "decoding methods it calls (their toolchain bodies are verified too, not trusted): for all 2^32 wait words and any rusage the "
-         "reply carries the status/exit value of the README table; an unclassifiable word or a wait error yields an error reply with non-empty text. "
-         "Every obligation is discharged by an SMT solver for all inputs (bit-vector exact semantics)."),
-   note=TRUST + "fmt.Sprintf contract assumed (non-empty result for a format starting with a literal). ptrace/unshare wait loops: see evidence undecided/functions list.",
-   technique="contract-based deductive verification: WP/VC generation over go/ssa, SMT (z3/cvc5)",
+ "C01": dict(level="proof",
+   text=("Contracts on the real code: Action.Action, ToSeccompAction (total map, unset/unknown fails closed to KILL_PROCESS), sockFilter (lossless copy, quantified loop invariant), "
+         "ExportBPF, Builder.Build (call-site obligation: the Policy handed to go-seccomp-bpf has exactly the translated default action, group 0 = ALLOW for Allow, group 1 = TRACE for Trace), "
+         "package initialiser (actTrace constant). All obligations discharged by SMT for all inputs."),
+   note=TRUST + "ASSUMED, not verified: go-seccomp-bpf Policy.Assemble compiles the policy correctly and x/net/bpf.Assemble is lossless (dependency code; the cBPF program itself is not interpreted yet); cmd/runprog config.cleanTrace is not under contract yet.",
+   design_ref="DESIGN.md §4 C01"),
+ "C03": dict(level="proof",
+   text=("Tracer side: handleTrap (ban => exactly one register write with syscall number -1 for that pid, kill => error, allow => no write), handle (a non-Normal verdict is returned without continuing the tracee; "
+         "every PtraceCont of a stopped pid happens after its options word was installed; option word = SECCOMP|EXITKILL|FORK|CLONE|VFORK|EXEC), setPtraceOption, skipSyscall, SetReturnValue. "
+         "Child side (forkAndExecInChild, model K): when ptrace and a filter are both requested the child has called TRACEME and stopped itself before the filter is loaded."),
+   note=TRUST + "kernel model T/K: a stop with syscall number -1 skips the call; options are inherited by auto-attached children; SIGSYS on filter kill. runner/ptrace Handle (verdict -> registers) is not under contract yet.",
+   design_ref="DESIGN.md §4 C03"),
+ "C04": dict(level="proof",
+   text=("One contract on forkexec.forkAndExecInChild with a symbolic *Runner (all option combinations at once) over ghost child state K: at both exec call sites and in the ETXTBSY retry loop "
+         "caps empty + NOROOT locked when credentials/drop-caps requested, no_new_privs when requested or a filter is given, the filter installed iff given (that very program, TSYNC), uid/gid/groups, new session, ctty, cwd, host/domain name issued with the configured length, "
+         "clone/clone3 flags = requested namespaces, INTO_CGROUP iff a cgroup fd is given; late cgroup unshare only after the sync ack. Every raw syscall may fail in the model, so a dropped error check is a reachable path."),
+   note=TRUST + "kernel model K (spec/kernel_K.contracts, from the man pages); results of sethostname/setdomainname/unshare are ignored by the code and asserted on issue only; Runner literals in container/unshare/ptrace runners not under contract yet.",
+   design_ref="DESIGN.md §4 C04"),
+ "C05": dict(level="proof",
+   text=("Raw in-child mount sequence (forkAndExecInChild, model K): loop invariant over all mount entries (each mounted with exactly its source/target/type/flags/data; bind-read-only entries remounted with at least their own flags plus REMOUNT), "
+         "pivot_root -> detach old root -> remove it -> read-only remount of / required at exec whenever a pivot root is configured; bit-level facts proved as bv lemmas. "),
+   note=TRUST + "kernel model K; precondition: mount targets are distinct pointers; that these mounts make the host unreachable is kernel behaviour. mount.Builder / Mount.Mount / container initFileSystem not under contract yet.",
+   design_ref="DESIGN.md §4 C05"),
+ "C06": dict(level="proof",
+   text=("Descriptor shuffle of forkAndExecInChild proved with quantified loop invariants over the ghost descriptor table for all lists (length, order, repeats, close markers, overlaps with the scratch area and with the sync/exec descriptors): "
+         "at exec slot k holds the caller's k-th file with CLOEXEC clear (or is closed for a marker), every descriptor >= len is CLOEXEC; frame: no store to caller-visible memory (found and fixed: Runner.ExecFile write-back); prepareFds."),
+   note=TRUST + "A-FD: every descriptor open in the launching process is CLOEXEC (container init: closeOnExecAllFds, not under contract yet); listed descriptors differ from the fresh socketpair.",
+   design_ref="DESIGN.md §4 C06"),
+ "C07": dict(level="proof",
+   text=("Child side of the sync gate (forkAndExecInChild, model K): exec is reachable with a sync callback configured only after the ready word was written to and the ack read from the sync socket (same open file), in that order; "
+         "every childExitError call names a location whose step class contains the system call that just failed, with the index of the mount/rlimit entry; childExitError* write {err, location, index} to the sync socket and never return."),
+   note=TRUST + "kernel model K. Parent side (syncWithChild/Start: callback strictly between ready and ack, kill+reap on failure) and container syncPid not under contract yet.",
+   design_ref="DESIGN.md §4 C07"),
+ "C08": dict(level="proof",
+   text=("PrepareRLimit: length and CPU/CORE entries exact for all records (positions of the middle entries not yet, see note); ptracer.checkUsage: time = utime in ns, memory = maxrss*1024, MLE over TLE over Normal for all 64-bit values."),
+   note=TRUST + "not decided yet: positions/values of DATA..NOFILE entries of PrepareRLimit (solver timeouts through seven conditional appends), the rlimit loop of forkAndExecInChild, pipe.NewBuffer.",
+   design_ref="DESIGN.md §4 C08"),
+ "C09": dict(level="proof",
+   text=("For all 2^32 wait words: container.convertReply and ptracer handle/trace equal the README status table (main process); an exit or fatal signal of a secondary process leaves the run going with status Normal; "
+         "Runner Error only with a non-empty text. syscall/unix WaitStatus methods are verified from the toolchain source, not trusted."),
+   note=TRUST + "fmt.Sprintf / error.Error non-empty-text contracts assumed. unshare.Run wait loop and host convertReplyResult not under contract yet.",
    design_ref="DESIGN.md §4 C09"),
+ "C12": dict(level="proof",
+   text=("Partial (process side of the ptrace runner only): the deferred clean-up of Tracer.trace issues kill(-pgid, SIGKILL) and then reaps until wait4 fails, on every return path."),
+   note=TRUST + "descriptor ownership (FD model) and the container/unshare runners are not under contract yet; that everything is dead afterwards is kernel behaviour.",
+   design_ref="DESIGN.md §4 C12"),
+ "C15": dict(level="proof",
+   text=("No-panic/termination obligations for tracer-side code under an unconstrained tracee: clen, hasNull, vmRead, vmReadStr, GetString, Context accessors, handle, handleTrap, trace (Runner Error only on the two launcher-side causes), IsInSetSmart/dirname; "
+         "found and fixed: clen returned len+1 for unterminated buffers (slice bounds panic)."),
+   note=TRUST + "kernel model T for process_vm_readv / PEEKDATA; runner/ptrace handle_linux.go functions not under contract yet.",
+   design_ref="DESIGN.md §4 C15"),
+ "C18": dict(level="proof",
+   text=("CheckRead/CheckWrite/CheckStat cascade (write => read => stat) and refusal => ban iff soft-ban covers else kill, over an abstract cover predicate; SyscallCounter.Check step contract; budget lemmas over histories; termination of the matcher."),
+   note=TRUST + "the string-content matcher IsInSetSmart is abstracted (deterministic function of set and name); its agreement with the documented cover relation is not decided yet (bounded stand-in planned).",
+   design_ref="DESIGN.md §4 C18"),
 }
+for k in claims: claims[k].setdefault("technique", "contract-based deductive verification: VC generation over go/ssa from //@ contracts, SMT (z3 5.1/4.8, cvc5)")
 
 na_reasons = {
  "C11": "cancellation 'at any moment ... within bounded time' quantifies over goroutine/kernel interleavings and wall-clock time; sequential function contracts cannot express or decide it (DESIGN.md §5)",
